@@ -112,6 +112,7 @@ func gepExprType(elemType, src types.Type, indices []Constant) types.Type {
 		// Check if index is of vector type.
 		if indexType, ok := index.Type().(*types.VectorType); ok {
 			idx.VectorLen = indexType.Len
+			idx.Scalable = indexType.Scalable
 		}
 		idxs = append(idxs, idx)
 	}
